@@ -236,6 +236,16 @@ def r4_template_depths(ctx, rule="C15.R4"):
         if derived[instr] != frozen[instr]:
             ctx.notes.append("VM stack effect of %s changed: %s (was %s); the template analysis "
                              "uses the derived value" % (instr, derived[instr], frozen[instr]))
+        if instr in templates.PAIRED_WITH_ERROR_EDGE:
+            # RESUME* leave the handler: the templates treat them as neutral (the handler context they pop
+            # was pushed by the error edge, C05.R3), and RESUME label may in addition leave every active
+            # call - an amount that depends on the run.  What matters here: each path pops the handler's context
+            pops = [d.get("ctx", 0) for d in derived[instr]]
+            ctx.decide(bool(pops) and max(pops) <= -1, rule, key, T.interpret_one.loc,
+                       "every path pops at least the handler's context (%d effects)" % len(pops),
+                       "a non-failing path of the %s arm does not pop the context the error edge pushed: effects %s"
+                       % (instr, derived[instr][:4]))
+            continue
         ctx.decide(len(derived[instr]) <= 1, rule, key, T.interpret_one.loc, "effect %s" % derived[instr],
                    "the VM arm of Instruction::%s changes the stacks by different amounts on different "
                    "non-failing paths (%s): the generator's templates assume one fixed effect per "
